@@ -297,6 +297,74 @@ def tmplGoUnfixed (sc : Scope) (delim : Str) : Template := prefixTmpl .go sc del
 def evalTopic (l : Lang) (r : Role) (sc : Scope) (vals : List Str) (delim op : Str) : Option Str :=
   eval ⟨vals, delim, op, sc.name⟩ (tmpl l r sc delim)
 
+/-! ## From the public API to the topic lines: parameters, arguments, forwarding
+
+The topic lines use the prefix variables BY NAME (`fmt.Sprintf("…", region, tenant)`). The
+values come from the arguments of the public entry point: every emitted function declares the
+variables as parameters (in `scope.Prefix.Variables` order) and some entry points only forward
+them — Go `Publish<Op>` → `p.methods["publish<Op>"].Invoke([…])` → `publish<Op>`, Go
+`Subscribe<Op>` → `Subscribe<Op>Errorable`, Java `Client.publish<Op>` → `proxy.publish<Op>`,
+Dart `publish<Op>` → `_methods['<Op>']` → `_publish<Op>`, Python `publish_<Op>` →
+`_methods['publish_<Op>']` → `_publish_<Op>`. A call binds the i-th argument to the i-th
+parameter; a forwarding call passes the values of the names it lists. -/
+
+/-- The entry points per language. `subAlt`: Go `Subscribe<Op>Errorable`, Java
+`subscribe<Op>Throwable` (other languages have none). -/
+inductive Entry where
+  | pub | sub | subAlt
+deriving DecidableEq, Repr
+
+def Entry.role : Entry → Role
+  | .pub => .pub
+  | _ => .sub
+
+/-- One emitted function that only forwards: its declared variable parameters and the names it
+passes on (in the order it passes them). -/
+structure Hop where
+  params : List Str
+  args : List Str
+deriving Repr
+
+def lookupVal (env : List (Str × Str)) (n : Str) : Str := (env.lookup n).getD []
+
+/-- The values the innermost function is called with. -/
+def runChain : List Hop → List Str → List Str
+  | [], vals => vals
+  | h :: t, vals => runChain t (h.args.map (lookupVal (h.params.zip vals)))
+
+/-- The forwarding functions between entry point and topic lines, as the generators emit them:
+parameters and forwarded arguments are the prefix variables in declaration order. -/
+def chain (l : Lang) (e : Entry) (vars : List Str) : List Hop :=
+  match l, e with
+  | .go, .pub => [⟨vars, vars⟩]          -- Publish<Op> → method table → publish<Op>
+  | .go, .sub => [⟨vars, vars⟩]          -- Subscribe<Op> → Subscribe<Op>Errorable
+  | .go, .subAlt => []
+  | .java, .pub => [⟨vars, vars⟩]        -- Client.publish<Op> → proxy → Internal…publish<Op>
+  | .java, _ => []
+  | .dart, .pub => [⟨vars, vars⟩]        -- publish<Op> → _methods → _publish<Op>
+  | .dart, _ => []
+  | _, .pub => [⟨vars, vars⟩]            -- Python publish_<Op> → _methods → _publish_<Op>
+  | _, _ => []
+
+/-- Which entry points a language has. -/
+def hasEntry : Lang → Entry → Bool
+  | .go, _ => true
+  | .java, _ => true
+  | .py, .pub => true
+  | .py, _ => false
+  | _, .subAlt => false
+  | _, _ => true
+
+/-- The values of the format arguments (the variables, by name, in order) inside the function
+that holds the topic lines, when entry point `e` is called with the variable arguments `args`. -/
+def reachVals (l : Lang) (e : Entry) (vars : List Str) (args : List Str) : List Str :=
+  vars.map (lookupVal (vars.zip (runChain (chain l e vars) args)))
+
+/-- The topic an entry point of the generated code publishes on / subscribes to when called with
+the variable arguments `args` (in prefix order). -/
+def entryTopic (l : Lang) (e : Entry) (sc : Scope) (args : List Str) (delim op : Str) : Option Str :=
+  eval ⟨reachVals l e sc.vars args, delim, op, sc.name⟩ (tmpl l e.role sc delim)
+
 /-! ## The specification
 
 The topic is: the prefix with its variables substituted (tokens joined by '.', as written in
